@@ -68,7 +68,7 @@ if ok:
     try:
         for c in checks:
             t0 = time.time()
-            rc, out = sh("./check %s --tier quick" % c, cwd=V)
+            rc, out = sh("./check %s --tier quick" % c, cwd=V, env={"VERIF_OUT": "/tmp/eval_mutant_out"})   # never overwrite the committed evidence
             line = [l for l in out.split("\n") if l.startswith(("VIOLATION", "OK", "KNOWN"))]
             results[c] = {"exit": rc, "line": line[-1] if line else out[-300:], "wall": round(time.time() - t0, 1)}
             if rc != 0 and "replay=" in results[c]["line"]:
